@@ -92,12 +92,19 @@ def _sha(b):
 
 
 _ADDR = re.compile(r"0x[0-9a-fA-F]{6,}")
+_ECHO = re.compile(r"input_value=\{[^}]*\}")
 
 
 def _norm_msg(e):
     """What the user reads on stderr when a program is refused: the exception text, with
     memory addresses (the one legitimately process-dependent thing) blanked."""
-    return _ADDR.sub("0x?", str(e))
+    # ... and pydantic's echo of the offending input (the option mapping in the order its keys
+    # were listed, which this harness permutes on purpose)
+    return _ECHO.sub("input_value={...}", _ADDR.sub("0x?", str(e)))
+
+
+PERM_SEED = 0
+_CALLS = [0]
 
 
 def op_convert(op):
@@ -105,6 +112,13 @@ def op_convert(op):
     from coco.b09.configs import CompilerConfigs, StringConfigs
     o = dict(op["opts"])
     sc = o.pop("string_configs", None)
+    if sc is not None and len(sc) > 1:
+        # the same mapping, its keys listed in the order this process was given
+        import random
+        keys = sorted(sc)
+        random.Random("%d/%d" % (PERM_SEED, _CALLS[0])).shuffle(keys)
+        sc = {k: sc[k] for k in keys}
+    _CALLS[0] += 1
     try:
         if sc is not None:
             o["compiler_configs"] = CompilerConfigs(string_configs=StringConfigs(strname_to_size=sc))
@@ -128,7 +142,15 @@ def op_cli(op):
         if not use_stdin:
             w.fs.put(inp, op["text"].encode("utf-8"))
         if op.get("config") is not None:
-            w.fs.put("/simfs/cfg.yaml", op["config"].encode("utf-8"))
+            cfg = op["config"]
+            head, sep, body = cfg.partition("strname_to_size:\n")
+            lines = [x for x in body.split("\n") if x.strip()]
+            if sep and len(lines) > 1:
+                import random
+                random.Random("%d/%d/cli" % (PERM_SEED, _CALLS[0])).shuffle(lines)
+                cfg = head + sep + "\n".join(lines) + "\n"
+            _CALLS[0] += 1
+            w.fs.put("/simfs/cfg.yaml", cfg.encode("utf-8"))
             argv += ["-c", "/simfs/cfg.yaml"]
         o = run_tool(w, "decb_to_b09", argv + ["-" if use_stdin else inp, "-" if use_stdout else outp],
                      10 ** 12)
@@ -148,6 +170,8 @@ OPS = {"convert": op_convert, "cli": op_cli, "decode": op_decode}
 
 
 def main():
+    global PERM_SEED
+    PERM_SEED = int((hist.get("penv") or {}).get("perm_seed", 0))
     from sim import decsim
     decsim.VCWD_OF_PROCESS = "/simfs/cwd" + os.getcwd().rstrip("/")
     deccheck.warm()
